@@ -6,8 +6,8 @@ use crate::sym::Cond;
 use crate::unit;
 use sliding_features::{pure_functions::Echo, rolling::*, View};
 
-fn welford_rolling<T: Dom>(k: usize) {
-    let mut v = WelfordRolling::new(Echo::new());
+fn welford_rolling<T: Dom>(k: usize, use_default: bool) {
+    let mut v: WelfordRolling<T, Echo<T>> = if use_default { WelfordRolling::default() } else { WelfordRolling::new(Echo::new()) };
     let mut h: Vec<T> = vec![];
     for t in 0..k {
         let x = T::input(&format!("x{t}"));
@@ -23,12 +23,12 @@ fn welford_rolling<T: Dom>(k: usize) {
         }
     }
 }
-fn drawdown<T: Dom>(k: usize) {
-    let mut v = Drawdown::new(Echo::new());
+fn drawdown<T: Dom>(k: usize, use_default: bool) {
+    let mut v: Drawdown<T, Echo<T>> = if use_default { Drawdown::default() } else { Drawdown::new(Echo::new()) };
     let mut peak: Option<T> = None;
     let mut dds: Vec<T> = vec![T::zero()];
     for t in 0..k {
-        let x = T::input(&format!("x{t}"));
+        let x = T::input(&format!("posx{t}"));
         T::assume(lt(T::zero(), x));
         v.update(x);
         let p = match peak { Some(p) if !(x > p) => p, _ => x };
@@ -40,11 +40,11 @@ fn drawdown<T: Dom>(k: usize) {
         }
     }
 }
-fn ln_return<T: Dom>(k: usize) {
-    let mut v = LnReturn::new(Echo::new());
+fn ln_return<T: Dom>(k: usize, use_default: bool) {
+    let mut v: LnReturn<T, Echo<T>> = if use_default { LnReturn::default() } else { LnReturn::new(Echo::new()) };
     let mut prev: Option<T> = None;
     for t in 0..k {
-        let x = T::input(&format!("x{t}"));
+        let x = T::input(&format!("posx{t}"));
         T::assume(lt(T::zero(), x));
         v.update(x);
         match (v.last(), prev) {
@@ -58,16 +58,24 @@ fn ln_return<T: Dom>(k: usize) {
 }
 pub fn units(tier: Tier, _seed: u64) -> Vec<Unit> {
     let q = tier == Tier::Quick;
-    vec![
-        unit!(format!("C13/WelfordRolling/k={}", if q { 8 } else { 16 }), welford_rolling(if q { 8usize } else { 16usize })),
-        unit!(format!("C13/Drawdown/k={}", if q { 5 } else { 7 }), drawdown(if q { 5usize } else { 7usize })),
-        unit!(format!("C13/LnReturn/k={}", if q { 6 } else { 12 }), ln_return(if q { 6usize } else { 12usize })),
-    ]
+    let mut u = vec![];
+    for d in [false, true] {
+        let tag = if d { "default()" } else { "new(Echo)" };
+        u.push(unit!(format!("C13/WelfordRolling/{tag}/k={}", if q { 8 } else { 16 }), welford_rolling(if q { 8usize } else { 16usize }, d)));
+        u.push(unit!(format!("C13/Drawdown/{tag}/k={}", if q { 5 } else { 7 }), drawdown(if q { 5usize } else { 7usize }, d)));
+        u.push(unit!(format!("C13/LnReturn/{tag}/k={}", if q { 6 } else { 12 }), ln_return(if q { 6usize } else { 12usize }, d)));
+    }
+    // a long stream along a sampled comparison path ("any number of updates" is bounded by k here)
+    let mut a = unit!("C13/WelfordRolling/new(Echo)/k=40/sample-path", welford_rolling(40usize, false)); a.concolic = Some(1); u.push(a);
+    let mut b = unit!("C13/Drawdown/new(Echo)/k=60/sample-path", drawdown(60usize, false)); b.concolic = Some(2); u.push(b);
+    let mut c = unit!("C13/Drawdown/new(Echo)/k=60/sample-path#2", drawdown(60usize, false)); c.concolic = Some(3); u.push(c);
+    for x in u.iter_mut() { x.max_decisions = 60000; }
+    u
 }
 pub fn meta() -> Meta {
     Meta {
         functions: vec!["WelfordRolling::{new,update,last,mean,variance}", "Drawdown::{new,update,last}", "LnReturn::{new,update,last}", "Echo::{update,last}"],
-        bounds: "stream length k = 8 / 5 / 6 (quick) and 16 / 7 / 12 (thorough) for WelfordRolling / Drawdown / LnReturn; inputs are solver variables, positive for Drawdown and LnReturn; all comparison outcomes (new peaks, repeated peaks, declines are branches)",
+        bounds: "both constructors (new(Echo) and Default::default()); sampled comparison paths of 40-60 values; stream length k = 8 / 5 / 6 (quick) and 16 / 7 / 12 (thorough) for WelfordRolling / Drawdown / LnReturn; inputs are solver variables, positive for Drawdown and LnReturn; all comparison outcomes (new peaks, repeated peaks, declines are branches)",
         outside: vec!["'millions of values': the claim is the stated k", "growth of f64 rounding error with the stream length (that is C16)"],
         assumptions: vec!["LnReturn: `ln` is uninterpreted; the obligation is that the view returns the identical term ln(x_t/x_(t-1))"],
     }
